@@ -269,7 +269,29 @@ func runC20(c *Ctx) {
 	var encSwitch *ast.SwitchStmt
 	ast.Inspect(fd.Body, func(n ast.Node) bool {
 		if sw, ok := n.(*ast.SwitchStmt); ok && sw.Tag != nil {
-			if call, ok := sw.Tag.(*ast.CallExpr); ok && len(call.Args) == 1 {
+			tag := ast.Unparen(sw.Tag)
+			// the header value may be held in a local first
+			if id, ok := tag.(*ast.Ident); ok {
+				ast.Inspect(fd.Body, func(m ast.Node) bool {
+					if as, ok := m.(*ast.AssignStmt); ok && len(as.Lhs) == 1 && len(as.Rhs) == 1 {
+						if lid, ok := as.Lhs[0].(*ast.Ident); ok && info.ObjectOf(lid) == info.ObjectOf(id) {
+							tag = ast.Unparen(as.Rhs[0])
+						}
+					}
+					return true
+				})
+			}
+			// strings.ToLower(<header>) / strings.TrimSpace(<header>) around it
+			for {
+				if call, ok := tag.(*ast.CallExpr); ok && len(call.Args) == 1 {
+					if fn := calleeOf(info, call); fn != nil && fn.Pkg() != nil && fn.Pkg().Path() == "strings" {
+						tag = ast.Unparen(call.Args[0])
+						continue
+					}
+				}
+				break
+			}
+			if call, ok := tag.(*ast.CallExpr); ok && len(call.Args) == 1 {
 				if s, ok := constString(info, call.Args[0]); ok && strings.EqualFold(s, "Content-Encoding") {
 					encSwitch = sw
 				}
